@@ -9,8 +9,8 @@ use bump_scope::{BaseAllocator, Bump};
 use crate::api::*;
 use crate::arena::*;
 use crate::arena_scopes::TopOp;
-use crate::runner::{CaseReport, CaseResult, Engine};
-use crate::talloc::{self, FaultPlan, GrantPolicy, Handle, O32, O64, P, P24, Z, with_ctx};
+use bsv_core::runner::{CaseReport, CaseResult, Engine};
+use bsv_core::talloc::{self, FaultPlan, GrantPolicy, Handle, O32, O64, P, P24, Z, with_ctx};
 
 #[derive(Clone, Debug)]
 pub struct Header {
@@ -74,7 +74,7 @@ where
             None
         }
         Err(p) => {
-            it.fail("panic/ctor", format!("Bump::{what} panicked: {}", crate::runner::panic_message(&p)));
+            it.fail("panic/ctor", format!("Bump::{what} panicked: {}", bsv_core::runner::panic_message(&p)));
             None
         }
     }
@@ -195,7 +195,7 @@ macro_rules! top_fn {
                         }));
                         let _ = before;
                         if let Err(p) = r {
-                            it.fail("panic/with-settings", format!("with_settings panicked: {}", crate::runner::panic_message(&p)));
+                            it.fail("panic/with-settings", format!("with_settings panicked: {}", bsv_core::runner::panic_message(&p)));
                         }
                         return;
                     }
@@ -239,50 +239,11 @@ where
 }
 
 type CellFn = fn(&mut Interp, &Header);
-/// callback with the arena as a trait object (engines B, C): the collection code is then
-/// instantiated once per element type, independent of the settings cell
-pub type DynFn<'f> = &'f mut dyn for<'x, 'y> FnMut(&'x mut (dyn bump_scope::traits::MutBumpAllocatorCoreScope<'y> + 'y), Info);
-type DynCellFn = for<'f> fn(usize, u8, DynFn<'f>) -> bool;
-
-fn dyn_start<A, const UP: bool, const GA: bool, const DE: bool, const SH: bool, const MCS: usize>(ma: usize, ctor: u8, f: DynFn<'_>) -> bool
-where
-    A: Handle + BaseAllocator<Bool<GA>>,
-{
-    macro_rules! go {
-        ($MA:literal) => {{
-            let r: Result<Bump<A, S<$MA, UP, GA, DE, SH, MCS>>, _> = match ctor % 3 {
-                0 => Bump::try_new_in(A::new()),
-                1 => Bump::try_with_size_in(2048, A::new()),
-                _ => {
-                    if GA { Bump::try_new_in(A::new()) } else { Ok(Bump::default()) }
-                }
-            };
-            match r {
-                Ok(mut b) => {
-                    let sc = b.as_mut_scope();
-                    let info = sc.x_info();
-                    f(sc, info);
-                    true
-                }
-                Err(_) => false,
-            }
-        }};
-    }
-    match ma {
-        1 => go!(1),
-        2 => go!(2),
-        4 => go!(4),
-        8 => go!(8),
-        _ => go!(16),
-    }
-}
-
 pub struct Cell {
     pub name: &'static str,
     pub f: CellFn,
     pub ga: bool,
     pub home: usize,
-    pub d: DynCellFn,
 }
 
 macro_rules! cell {
@@ -291,7 +252,6 @@ macro_rules! cell {
             name: concat!(stringify!($A), " home=", stringify!($H), " up=", stringify!($UP), " ga=", stringify!($GA), " de=", stringify!($DE), " sh=", stringify!($SH), " mcs=", stringify!($MCS)),
             f: start::<$A<0, $H>, $UP, $GA, $DE, $SH, $MCS>,
             home: $H,
-            d: dyn_start::<$A<0, $H>, $UP, $GA, $DE, $SH, $MCS>,
             ga: $GA,
         }
     };
